@@ -110,9 +110,10 @@ type c16Sched struct {
 	Src   string `json:"src"`
 	API   string `json:"api"` // parse | parsefile | interpret
 	Bound int    `json:"bound"`
+	Cut   int    `json:"cut,omitempty"` // parsefile: deliver Src[:Cut] first, then the rest (0: three equal chunks)
 }
 
-func (c *c16Sched) Key() string { return fmt.Sprintf("%s|%d|%s", c.API, c.Bound, c.Src) }
+func (c *c16Sched) Key() string { return fmt.Sprintf("%s|%d|%d|%s", c.API, c.Bound, c.Cut, c.Src) }
 
 var subC16Sched = &fw.Sub{Name: "c16.schedules", New: func() fw.Case { return &c16Sched{} }, Exec: func(cs fw.Case) *fw.Fail {
 	c := cs.(*c16Sched)
@@ -132,7 +133,11 @@ var subC16Sched = &fw.Sub{Name: "c16.schedules", New: func() fw.Case { return &c
 				obs = fmt.Sprintf("errs=%v log=%q dump=%x", o.errs, o.log, o.dump)
 			case "parsefile":
 				n := len(c.Src)
-				p := impl.ParseFile(impl.NewScriptFile(c.Src, impl.Chunks(n/3, n/3)))
+				script := impl.Chunks(n/3, n/3)
+				if c.Cut > 0 {
+					script = impl.Chunks(c.Cut)
+				}
+				p := impl.ParseFile(impl.NewScriptFile(c.Src, script))
 				o := parseObs{errs: p.Err != nil, log: p.Log}
 				if p.Err == nil {
 					o.dump, _ = impl.Dump(p.Prog)
@@ -512,6 +517,17 @@ func init() {
 				c.Do(subC16Sched, &c16Sched{Src: src, API: "interpret", Bound: bound + 1})
 				if len(src) >= 6 {
 					c.Do(subC16Sched, &c16Sched{Src: src, API: "parsefile", Bound: bound})
+				}
+				if c.Expired() {
+					c.Cap("deadline during schedules")
+					return
+				}
+			}
+			// several diagnostics on several lines, the input cut at every offset: which line ends the lexer
+			// has already seen when the parser formats a position depends on the schedule only
+			for _, src := range []string{"print )\nprint )\nprint 3\nprint )\nprint )\n", "print (\n\nvar\n)\n\n\nprint )"} {
+				for cut := 1; cut < len(src); cut++ {
+					c.Do(subC16Sched, &c16Sched{Src: src, API: "parsefile", Bound: bound, Cut: cut})
 				}
 				if c.Expired() {
 					c.Cap("deadline during schedules")
